@@ -899,6 +899,10 @@ class CSSVariable(CSSFunction):
         # store: name of variable
         store = {'ident': None, 'fallback': None}
         ok, seq, store, unused = ProdParser().parse(cssText, 'CSSVariable', prods)
+        if ok and 'ident' not in store:
+            # e.g. var( cut off by the end of the sheet
+            ok = False
+            self._log.error('CSSVariable: No variable name found: %s' % self._valuestr(cssText))
         self.wellformed = ok
 
         if ok:
